@@ -140,7 +140,7 @@ def check_split(ctx):
     ctx.ob("C16.T1", "SecsIBlock", ok, "SECS-I blocks use the SECS-I header" if ok else "SecsIBlock.header_type / SecsIMessage.block_type are not the SECS-I classes", key="types", where=blk.where)
     # the split itself: equal to the reference model of E4 blocking (summaries), or - for another spelling - the shape rules below
     found = _codec.signature(_codec.paths_of(ctx, f))
-    want = _codec.signature(_codec.reference_paths(REF_SPLIT))
+    want = _codec.signature(_codec.reference_paths(REF_SPLIT, like=f, repo=repo))
     if found["returns"] == want["returns"]:
         ctx.ob("C16.P1", q, True, "the body is cut into consecutive block_size pieces (one empty block for an empty body), numbered 1..n, the end bit on the last piece (or taken from a received header), each block header derived from the message header", key="split-model", where=f.where)
         return
@@ -293,7 +293,7 @@ def check_reassembly(ctx):
         ctx.ob("C16.P3", pm.qualname, ok, f"SecsIMessage.{prop}: {got}" if ok else f"SecsIMessage.{prop} returns `{got}`, expected `{want}`", where=pm.where)
     fb = repo.method("Message", "from_block", inherited=False)
     r = [s for s in rules.func_stmts(fb.node) if isinstance(s, ast.Return)]
-    ok = len(r) == 1 and norm(r[0].value) == "cls(block.header, block.data, complete=False)"
+    ok = len(r) == 1 and norm(r[0].value) in ("cls(block.header, block.data, complete=False)", "cls(block.header, block.data, False)")
     ctx.ob("C16.P3", fb.qualname, ok, "a message opened from a block keeps that block's header (incl. its end bit) and data" if ok else "from_block does not build cls(block.header, block.data, complete=False)", where=fb.where)
     sb = repo.method("Message", "_split_blocks", inherited=False)
     cfg2 = cfg_of(sb.node)
